@@ -394,6 +394,8 @@ class P(object):
             return ("return", self.expr())
         if name == "break":
             return ("break",)
+        if name == "continue":
+            return ("continue",)
         if name in ("true", "false"):
             return ("bool", name == "true")
         segs = [name]
@@ -479,6 +481,8 @@ class P(object):
                 return ("assign", e, op, rhs)
         if self.eat(";"):
             return ("expr", e)
+        if e[0] in ("while", "loop", "for"):
+            return ("expr", e)              # loops have no value: a statement also when they come last
         if self.at("}"):
             return ("tail", e)
         if e[0] in ("if", "match", "while", "loop", "block", "for"):
